@@ -137,3 +137,26 @@ def validate_all(ctx, items, spec_dir, module, cfg, keyfn_of, what, stats_tag, p
             total["events"] = total.get("events", 0) + res["events"]
             total["runs"] = total.get("runs", 0) + 1
     return total
+
+
+def binding_demo(ctx, spec_dir, module, cfg, src, name, mutate, expect_tag):
+    """Vacuity control of the binding (DESIGN.md section 7): corrupt an accepted trace with `mutate`
+    (list of lines -> list of lines) and confirm that the trace specification rejects it with
+    `expect_tag`. Recorded in the evidence; a corrupted trace that is accepted is a tool error."""
+    lines = open(src).read().splitlines()
+    new = mutate(lines)
+    if new is None:
+        return None
+    path = os.path.join(ctx.work, "demo_%s.ndjson" % name)
+    with open(path, "w") as f:
+        f.write("\n".join(new) + "\n")
+    rc, out, wall = ctx._tlc(spec_dir, module, cfg, "demo_" + name, 1, 900, jvm=vf.TRACE_JVM,
+                             env={"TRACE": os.path.abspath(path)})
+    tags = set(re.findall(r'ROW_REJECTED l=\d+ tag=([^\s"]+)', out))
+    ok = any(t.startswith(expect_tag) for t in tags)
+    ctx.cov.setdefault("binding_demo", []).append(
+        {"name": name, "expected": expect_tag, "rejected_with": sorted(tags)[:6], "ok": ok})
+    if not ok:
+        raise vf.ToolError("binding demonstration %s: the corrupted trace was not rejected with %s "
+                           "(got %s)" % (name, expect_tag, sorted(tags)))
+    return ok
